@@ -34,7 +34,9 @@ RULE = ("seeded (mode in CONNECT/transparent/reverse/SOCKS5) x (destination: hos
         "the colon, trailing whitespace, port present/absent/different, position among other headers) x rule set "
         "(ignore_hosts and/or allow_hosts regexes aimed at the address, the SNI, the Host header, the port, an IP "
         "range, or nothing) x two segmentations of the same flight (one piece; 1-4 cuts at/after byte 3) x "
-        "eager/lazy upstream; non-trivial = the rule set is non-empty and the decision hinges on at least one "
+        "eager/lazy upstream x (HTTP flight: upstream connect delay 1 ms..1 s and a client that half-closes right "
+        "after its first flight, SOCKS5 client then not waiting for the reply, so data and FIN are there before the "
+        "upstream connection is); non-trivial = the rule set is non-empty and the decision hinges on at least one "
         "destination form; distinct = distinct abstract logs")
 COMPONENTS_REAL = ["Master", "default addons (NextLayer._ignore_connection/_get_host_header/_get_client_hello, TlsConfig)",
                    "ProxyConnectionHandler", "mode layers (HttpProxy+CONNECT, TransparentProxy, ReverseProxy, Socks5Proxy)",
@@ -50,7 +52,8 @@ EXPECTED_PROBES = ["expect_ignore", "expect_intercept", "hinges_on_address", "hi
                    "ignored_relay_checked", "mode_connect", "mode_transparent", "mode_reverse", "mode_socks5",
                    "flight_tls", "flight_http", "allow_rules", "ignore_rules", "host_no_ows", "short_first_segment",
                    "addon_ignore_set", "hello_followed_by_ccs", "hello_followed_by_appdata",
-                   "follow_in_same_segment_as_hello_end"]
+                   "follow_in_same_segment_as_hello_end", "early_fin_conn", "early_fin_before_upstream_connected",
+                   "early_fin_pre_connect_ignored_relay_checked"]
 
 NAMES = ["example.com", "api.example.com", "example.org", "pinned.test"]
 IPS = ["93.184.216.34", "10.1.2.3"]
@@ -213,6 +216,19 @@ def generate(rng, tier):
         lay = r2.choice(["arbitrary", "hello_alone", "inside_hello", "inside_hello", "hello_plus_part"])
         sc["conns"][1]["layout"] = lay
         sc["conns"][1]["at"] = round(r2.random(), 4)
+    # Timing of the upstream connect relative to the client's first flight and FIN: an EOF-delimited request
+    # (`printf ... | nc -N`): the client half-closes right after its first flight, and the upstream connect takes a
+    # while, so that (eager strategy; transparent / reverse / SOCKS5 with optimistic data) both the data and the FIN
+    # are already there when the connection comes up and the decision is made.  Own site: older scenarios keep
+    # their shape.
+    r3 = rng.at("c19-earlyfin")
+    if flight == "http" and r3.random() < 0.3:
+        sc["connect_delay"] = r3.choice([0.001, 0.05, 0.3, 1.0, 1.0])
+        which = r3.choice(["first", "second", "both", "both", "none"])
+        if which in ("first", "both"):
+            sc["conns"][0]["early_fin"] = True
+        if which in ("second", "both"):
+            sc["conns"][1]["early_fin"] = True
     return sc
 
 
@@ -326,7 +342,7 @@ def _execute(sc):
                                 break
                         conn.send_eof()
                 w.loop.create_task(origin(), name="sim-origin")
-            return ConnectPlan(delay=0.001, accept=accept)
+            return ConnectPlan(delay=sc.get("connect_delay", 0.001), accept=accept)
         w.net.connect_planner = planner
 
         for i, cs in enumerate(sc["conns"]):
@@ -377,7 +393,44 @@ def _execute(sc):
             res["nseg"] = len(cuts) + 1
             # ---- preamble ------------------------------------------------------------------------------
             trailing = b""
-            if mode == "connect":
+            early = bool(cs.get("early_fin")) and flight == "http"
+
+            def fin_now():
+                # the client half-closes right after its first flight
+                c.send_eof()
+                probe("early_fin_conn")
+                res["early_fin"] = True
+                res["fin_pre_connect"] = "origin_conn" not in cur
+                if res["fin_pre_connect"]:
+                    probe("early_fin_before_upstream_connected")
+
+            if mode == "socks5" and early:
+                # optimistic client: request, first flight and FIN go out without waiting for the SOCKS5 reply
+                c.feed(b"\x05\x01\x00")
+                while len(c.rx) < 2:
+                    if c.rx_eof or not await c.wait_change(30.0):
+                        break
+                if len(c.rx) < 2:
+                    res["detail"] = "SOCKS5: no method selection"
+                    continue
+                del c.rx[:2]
+                if cs.get("socks_trailing"):
+                    trailing = first[:res["first_seg"]]
+                c.feed(T.socks5_request(host, port) + trailing)
+                pre_sent = len(c.sent) - len(trailing)
+                rest = first[len(trailing):]
+                if rest:
+                    await c.send(rest, cuts=[k - len(trailing) for k in cuts if k > len(trailing)], gaps=cs["gaps"][1:])
+                fin_now()
+                while len(c.rx) < 10:
+                    if c.rx_eof or not await c.wait_change(30.0):
+                        break
+                if len(c.rx) < 10 or c.rx[1] != 0:
+                    res["detail"] = f"SOCKS5 reply {bytes(c.rx[:10])!r}"
+                    continue
+                del c.rx[:10]
+                pre_recv = len(c.received) - len(c.rx)
+            elif mode == "connect":
                 st = await T.http_connect(c, f"{host}:{port}")
                 if not st or " 200" not in st:
                     res["detail"] = f"CONNECT answered {st!r}"
@@ -389,13 +442,18 @@ def _execute(sc):
                 if rep != 0:
                     res["detail"] = f"SOCKS5 reply {rep!r}"
                     continue
-            pre_sent = len(c.sent) - len(trailing)
-            pre_recv = len(c.received) - len(c.rx)
-            if trailing:
-                rest = first[len(trailing):]
-                await c.send(rest, cuts=[k - len(trailing) for k in cuts if k > len(trailing)], gaps=cs["gaps"][1:])
+            if mode == "socks5" and early:
+                pass        # everything is out already
             else:
-                await c.send(first, cuts=cuts, gaps=cs["gaps"])
+                pre_sent = len(c.sent) - len(trailing)
+                pre_recv = len(c.received) - len(c.rx)
+                if trailing:
+                    rest = first[len(trailing):]
+                    await c.send(rest, cuts=[k - len(trailing) for k in cuts if k > len(trailing)], gaps=cs["gaps"][1:])
+                else:
+                    await c.send(first, cuts=cuts, gaps=cs["gaps"])
+                if early:
+                    fin_now()
             # ---- the exchange -----------------------------------------------------------------------------
             if flight == "tls":
                 e.raw_out += len(first)
@@ -491,7 +549,8 @@ def _execute(sc):
     for res in results:
         obs = res["observed"]
         hk = per_port_hooks.get(res["port"], [])
-        log.append((res["i"], res.get("nseg"), obs, sorted(set(hk)), res.get("reply_ok"), res.get("closed")))
+        log.append((res["i"], res.get("nseg"), obs, sorted(set(hk)), res.get("reply_ok"), res.get("closed"),
+                    res.get("fin_pre_connect")))
         if obs == "failed":
             violate("no_decision_or_broken_relay", {"flight": flight, "expected": expected, "one_piece": res.get("nseg") == 1},
                     f"conn {res['i']} ({mode}, {res.get('nseg')} segments): neither passed through nor intercepted: {res['detail']}")
@@ -515,12 +574,17 @@ def _execute(sc):
             continue
         if obs == "ignore":
             probe("ignored_relay_checked")
+            if res.get("fin_pre_connect"):
+                probe("early_fin_pre_connect_ignored_relay_checked")
+            # the key names the situation (client half-closed after its first flight, and in which mode) so that
+            # different failure modes are never merged
+            hc = {"client_half_closed_in": mode} if res.get("early_fin") else {}
             if res["origin_recv"] != res["client_sent"]:
-                violate("ignored_bytes_modified", {"dir": "client_to_origin", "flight": flight},
+                violate("ignored_bytes_modified", {"dir": "client_to_origin", "flight": flight, **hc},
                         f"conn {res['i']}: origin got {len(res['origin_recv'])} bytes, client sent {len(res['client_sent'])}; "
                         f"common prefix {_common(res['origin_recv'], res['client_sent'])}")
             if res["client_recv"] != res["origin_sent"]:
-                violate("ignored_bytes_modified", {"dir": "origin_to_client", "flight": flight},
+                violate("ignored_bytes_modified", {"dir": "origin_to_client", "flight": flight, **hc},
                         f"conn {res['i']}: client got {len(res['client_recv'])} bytes, origin sent {len(res['origin_sent'])}; "
                         f"common prefix {_common(res['client_recv'], res['origin_sent'])}")
             bad = sorted({h for h in hk if h.startswith("tls_start") or h.startswith("tls_established")
